@@ -34,6 +34,19 @@
         } \
     } while(0)
 
+/* An arena that cannot grow must end the parse, not be dereferenced */
+#define REQUIRE_ALLOC(ptr, count, dec) \
+    do { \
+        if ((count) > 0 && !(ptr)) { \
+            if ((dec)->status == CARQUET_OK) { \
+                (dec)->status = CARQUET_ERROR_OUT_OF_MEMORY; \
+                snprintf((dec)->error_message, sizeof((dec)->error_message), \
+                    "Out of memory while parsing metadata"); \
+            } \
+            return; \
+        } \
+    } while(0)
+
 /* The top-level lists of a footer hold structs. A non-empty list announcing
  * another element type is not that list: decoding its bytes as structs would
  * accept arbitrary data as metadata. */
@@ -43,6 +56,15 @@
             CARQUET_SET_ERROR(error, CARQUET_ERROR_INVALID_METADATA, \
                 "FileMetaData.%s is not a list of structs", (what)); \
             return CARQUET_ERROR_INVALID_METADATA; \
+        } \
+    } while(0)
+
+#define REQUIRE_ALLOC_STATUS(ptr, count, error) \
+    do { \
+        if ((count) > 0 && !(ptr)) { \
+            CARQUET_SET_ERROR(error, CARQUET_ERROR_OUT_OF_MEMORY, \
+                "Out of memory while parsing metadata"); \
+            return CARQUET_ERROR_OUT_OF_MEMORY; \
         } \
     } while(0)
 
@@ -63,11 +85,15 @@
 static char* arena_strdup_thrift(carquet_arena_t* arena, thrift_decoder_t* dec) {
     int32_t len;
     const uint8_t* data = thrift_read_binary(dec, &len);
-    if (!data && len == 0) {
-        return carquet_arena_strdup(arena, "");
+    if (!data && len != 0) return NULL;
+    char* copy = data ? carquet_arena_strndup(arena, (const char*)data, (size_t)len)
+                      : carquet_arena_strdup(arena, "");
+    if (!copy && dec->status == CARQUET_OK) {
+        dec->status = CARQUET_ERROR_OUT_OF_MEMORY;
+        snprintf(dec->error_message, sizeof(dec->error_message),
+            "Out of memory while parsing metadata");
     }
-    if (!data) return NULL;
-    return carquet_arena_strndup(arena, (const char*)data, (size_t)len);
+    return copy;
 }
 
 static uint8_t* arena_bindup_thrift(carquet_arena_t* arena, thrift_decoder_t* dec, int32_t* out_len) {
@@ -75,7 +101,13 @@ static uint8_t* arena_bindup_thrift(carquet_arena_t* arena, thrift_decoder_t* de
     const uint8_t* data = thrift_read_binary(dec, &len);
     *out_len = len;
     if (!data || len == 0) return NULL;
-    return carquet_arena_memdup(arena, data, (size_t)len);
+    uint8_t* copy = carquet_arena_memdup(arena, data, (size_t)len);
+    if (!copy && dec->status == CARQUET_OK) {
+        dec->status = CARQUET_ERROR_OUT_OF_MEMORY;
+        snprintf(dec->error_message, sizeof(dec->error_message),
+            "Out of memory while parsing metadata");
+    }
+    return copy;
 }
 
 /* ============================================================================
@@ -344,6 +376,7 @@ static void parse_column_metadata(thrift_decoder_t* dec, carquet_arena_t* arena,
                 VALIDATE_COUNT(count, CARQUET_MAX_ENCODINGS, dec);
                 meta->num_encodings = count;
                 meta->encodings = carquet_arena_calloc(arena, count, sizeof(carquet_encoding_t));
+                REQUIRE_ALLOC(meta->encodings, count, dec);
                 for (int32_t i = 0; i < count; i++) {
                     meta->encodings[i] = (carquet_encoding_t)thrift_read_i32(dec);
                 }
@@ -356,6 +389,7 @@ static void parse_column_metadata(thrift_decoder_t* dec, carquet_arena_t* arena,
                 VALIDATE_COUNT(count, CARQUET_MAX_PATH_ELEMENTS, dec);
                 meta->path_len = count;
                 meta->path_in_schema = carquet_arena_calloc(arena, count, sizeof(char*));
+                REQUIRE_ALLOC(meta->path_in_schema, count, dec);
                 for (int32_t i = 0; i < count; i++) {
                     meta->path_in_schema[i] = arena_strdup_thrift(arena, dec);
                 }
@@ -381,6 +415,7 @@ static void parse_column_metadata(thrift_decoder_t* dec, carquet_arena_t* arena,
                 meta->num_key_value = count;
                 meta->key_value_metadata = carquet_arena_calloc(arena, count,
                     sizeof(parquet_key_value_t));
+                REQUIRE_ALLOC(meta->key_value_metadata, count, dec);
                 for (int32_t i = 0; i < count; i++) {
                     thrift_read_struct_begin(dec);
                     thrift_type_t ft;
@@ -417,6 +452,7 @@ static void parse_column_metadata(thrift_decoder_t* dec, carquet_arena_t* arena,
                 meta->num_encoding_stats = count;
                 meta->encoding_stats = carquet_arena_calloc(arena, count,
                     sizeof(parquet_page_encoding_stats_t));
+                REQUIRE_ALLOC(meta->encoding_stats, count, dec);
                 for (int32_t i = 0; i < count; i++) {
                     thrift_read_struct_begin(dec);
                     thrift_type_t ft;
@@ -523,6 +559,7 @@ static void parse_row_group(thrift_decoder_t* dec, carquet_arena_t* arena,
                 rg->num_columns = count;
                 rg->columns = carquet_arena_calloc(arena, count,
                     sizeof(parquet_column_chunk_t));
+                REQUIRE_ALLOC(rg->columns, count, dec);
                 for (int32_t i = 0; i < count; i++) {
                     parse_column_chunk(dec, arena, &rg->columns[i]);
                 }
@@ -620,6 +657,7 @@ carquet_status_t parquet_parse_file_metadata(
                 metadata->num_schema_elements = count;
                 metadata->schema = carquet_arena_calloc(arena, count,
                     sizeof(parquet_schema_element_t));
+                REQUIRE_ALLOC_STATUS(metadata->schema, count, error);
                 for (int32_t i = 0; i < count; i++) {
                     parse_schema_element(&dec, arena, &metadata->schema[i]);
                 }
@@ -637,6 +675,7 @@ carquet_status_t parquet_parse_file_metadata(
                 metadata->num_row_groups = count;
                 metadata->row_groups = carquet_arena_calloc(arena, count,
                     sizeof(parquet_row_group_t));
+                REQUIRE_ALLOC_STATUS(metadata->row_groups, count, error);
                 for (int32_t i = 0; i < count; i++) {
                     parse_row_group(&dec, arena, &metadata->row_groups[i]);
                 }
@@ -651,6 +690,7 @@ carquet_status_t parquet_parse_file_metadata(
                 metadata->num_key_value = count;
                 metadata->key_value_metadata = carquet_arena_calloc(arena, count,
                     sizeof(parquet_key_value_t));
+                REQUIRE_ALLOC_STATUS(metadata->key_value_metadata, count, error);
                 for (int32_t i = 0; i < count; i++) {
                     thrift_read_struct_begin(&dec);
                     thrift_type_t ft;
